@@ -83,6 +83,8 @@ impl Method for FixedMethod {
             self.pending_kar = None;
             self.typed.pop();
             if self.buffer.is_empty() {
+                // Nothing is left of the word, so are the typed keys.
+                self.typed.clear();
                 return Suggestion::empty();
             }
             return self.create_suggestion(data, config);
@@ -94,6 +96,8 @@ impl Method for FixedMethod {
 
             if self.buffer.is_empty() {
                 // The buffer is now empty, so return empty suggestion.
+                // A character may have been made by several keys, forget all of them.
+                self.typed.clear();
                 return Suggestion::empty();
             }
 
